@@ -389,7 +389,23 @@ func (u *Unit) effectsOfFunc(fn *ssa.Function, visited map[*ssa.Function]bool) *
 		return newEffects()
 	}
 	visited[fn] = true
-	return u.effectsOfBlocks(fn, nil, visited)
+	e := u.effectsOfBlocks(fn, nil, visited)
+	// ghost updates stated in the function's contract
+	if fs := u.lookupFuncSpec(fn); fs != nil {
+		for _, c := range fs.Asserts {
+			if c.GhostTarget == "" {
+				continue
+			}
+			gn := c.GhostTarget
+			if i := strings.Index(gn, "("); i >= 0 {
+				gn = gn[:i]
+			}
+			if gh, ok := u.eng.spec.GhostHeaps[gn]; ok {
+				e.heaps["G!"+gh.Name] = ArrSort(gh.Key, gh.Val)
+			}
+		}
+	}
+	return e
 }
 
 // lockHeaps: acquiring a lock havocs what it guards.
